@@ -175,7 +175,7 @@ pub fn run(cfg: &Cfg, rng: &mut Rng, out: &mut Out) {
         reboot::<4>(&format!("rb4_{i}"), rng, out);
     }
     let thorough = cfg.tier == "thorough";
-    let n = if thorough { 400 } else { 120 };
+    let n = if thorough { 400 } else { 200 };
     for i in 0..n {
         let id = format!("u{i}");
         let (nq, nops) = if thorough { (24, 12) } else { (12, 6) };
